@@ -59,6 +59,14 @@ def base_models(feature, arg=None, extra=None):
         elif f == "dim_type":
             dims.append({"boolean": Dimension(name="big", type="boolean", sql="amount > 10"), "numeric": Dimension(name="qty_d", type="numeric", sql="qty"),
                          "categorical_expr": Dimension(name="st_u", type="categorical", sql="UPPER(status)")}[a])
+        elif f == "key_dim_alias":
+            # the key column is ALSO exposed as a dimension under another name (which is the name of another physical column), and a
+            # count_distinct measure without sql counts the primary key: whatever the format does with the key must keep that number
+            dims.append(Dimension(name="id2", type="numeric", sql="id"))
+            mets.append(Metric(name="uniq", agg="count_distinct"))
+        elif f == "user_text":
+            # user-written SQL text that happens to contain punctuation other formats use as syntax (a regex character class holds "_.")
+            dims.append({"regex_class": Dimension(name="st_clean", type="categorical", sql="regexp_replace(status, '[a-z0-9_.-]', '')")}[a])
         elif f == "granularity":
             dims[1] = Dimension(name="created_at", type="time", granularity=a)
         elif f == "composite_pk":
@@ -76,7 +84,7 @@ def base_models(feature, arg=None, extra=None):
 
 FEATURES = [("agg", a) for a in AGGS] + [("count_star", None), ("count_col_named", None), ("filtered", None), ("expression", None), ("dim_type", "boolean"), ("dim_type", "numeric"), ("dim_type", "categorical_expr"),
             ("granularity", "hour"), ("granularity", "week"), ("granularity", "month"), ("composite_pk", None), ("sql_model", None),
-            ("relationship", "many_to_one"), ("relationship", "one_to_many"), ("relationship", "one_to_one"), ("segment", None)]
+            ("relationship", "many_to_one"), ("relationship", "one_to_many"), ("relationship", "one_to_one"), ("segment", None), ("key_dim_alias", None)]
 PAIRS = [(("agg", "avg"), ("filtered", None)), (("agg", "count_distinct"), ("composite_pk", None)), (("filtered", None), ("sql_model", None)), (("expression", None), ("dim_type", "boolean")),
          (("agg", "min"), ("granularity", "month")), (("count_col_named", None), ("filtered", None)), (("segment", None), ("sql_model", None)), (("agg", "max"), ("relationship", "one_to_many"))]
 
@@ -244,6 +252,17 @@ def lookup_known(known, k3):
 
 
 STRUCTURAL = ("pk_changed", "source_changed", "relationship_changed")
+BASELINE = os.path.join(lib.VERIF, "harness", "c12_structural_baseline.json")
+
+
+def structural_baseline():
+    """(adapter, feature id, kind) triples: key / source / relationship changes across a round trip OBSERVED ON THE PINNED TREE.  "When the
+    format has syntax for them" cannot be decided per format from the code; what can be decided is that an adapter which kept the key (source,
+    relationship) of a cell on the pinned tree has syntax for it -- so a change outside this list is reported, a change inside it is a note."""
+    try:
+        return {tuple(x) for x in json.load(open(BASELINE))["structural_changes"]}
+    except FileNotFoundError:
+        return None
 
 
 def run(c):
@@ -262,6 +281,8 @@ def run(c):
     if gen_ok:
         c.build_props()
     known = known_set(c)
+    baseline = structural_baseline()
+    observed_structural = set()
     cells = [(k, (f,)) for k in ADAPTERS for f in FEATURES]
     if c.tier == "thorough":
         cells += [(k, p) for k in ADAPTERS for p in PAIRS]
@@ -281,8 +302,14 @@ def run(c):
         for kind, detail in probs:
             stats["problems_by_kind"][kind.split(":")[0]] = stats["problems_by_kind"].get(kind.split(":")[0], 0) + 1
             if kind in STRUCTURAL:
-                # lenient reading of "when the format has syntax for them": a changed key / source / relationship type is recorded, not reported
-                notes.add("%s %s: %s %s" % (key, fid, kind, detail[:80]))
+                # lenient reading of "when the format has syntax for them": a changed key / source / relationship type that the pinned tree
+                # already shows is recorded as a note; one the pinned tree does not show is reported (the adapter demonstrably has the syntax)
+                observed_structural.add((key, fid, kind))
+                inherited = any((key, feat_id((f,)), kind) in (baseline or ()) for f in feats)
+                if baseline is None or (key, fid, kind) in baseline or inherited:
+                    notes.add("%s %s: %s %s" % (key, fid, kind, detail[:80]))
+                    continue
+                new.append((kind, detail))
                 continue
             k3 = (key, fid, kind)
             # a pair cell inherits the listed problems of its single features
@@ -304,6 +331,9 @@ def run(c):
             c.violation("%s export -> import, feature %s: %s (%s)" % (key, fid, kind, detail[:160]), {"kind": "cell", "adapter": key, "features": [list(f) for f in feats], "problem": kind, "detail": detail})
         if len(c.samples) < 3 and not probs:
             c.samples.append({"adapter": key, "feature": fid, "result": "round trip keeps model, key, relationships; every surviving metric and dimension computes the same values; second trip is a fixed point"})
+    if os.environ.get("VERIF_C12_WRITE_BASELINE") == "1" and os.path.realpath(lib.REPO) == "/repo":
+        json.dump({"comment": "key / source / relationship changes across export -> import observed on the pinned tree (written by VERIF_C12_WRITE_BASELINE=1 ./check C12 --tier thorough; never at check time)",
+                   "structural_changes": sorted(map(list, observed_structural))}, open(BASELINE, "w"), indent=0)
     for fid in seen_known:
         c.known(fid)
     c.notes.extend(sorted(notes)[:40])
